@@ -10,30 +10,34 @@ CT = "c14case"
 
 MANIFEST = dict(
     text=("Theorems (Props/C14.v; axioms: the classical reals of the Coq standard library, classic and functional "
-          "extensionality via Coquelicot, the primitive-integer axioms of Bignums/Coq-Interval for the two interval "
-          "facts): the closed forms of the three reaction chains - single capture with burn-up of target and product, "
-          "two-step capture (Bateman), feeding by decay of an activated parent - are PROVED (Coquelicot is_derive) to "
-          "satisfy their ODE systems with the right initial conditions; on these solutions activity is non-negative "
-          "(integrating-factor argument, all three chains), proportional to mass, falls by exactly 2^(-t/T) over a rest "
-          "time, and for single capture never falls with exposure by more than the depletion exp(-k1 dt) of the target. "
-          "The Gallina transcription of activity() (Model/Act.v, all four branches, reader of the raw activation.dat "
-          "lines regenerated from /repo) is proved to denote exactly the chain solution on the main, 'b' and '2n' "
-          "branches (model_refines_spec_*), to omit fast rows when the fast ratio is 0, to be independent of the "
-          "resonance integrals when the Cd ratio is below 1, and to expand a natural element into its "
-          "abundance-weighted isotopes.  One full-strength statement is REFUTED on the faithful model with a witness: "
-          "the |U|,|V| < 1e-10 branch computes W(V-U+(V+U)/2) = solution x (1 + (V+U)/(2(V-U))) (identity proved), "
-          "1.5 x the solution for a concrete long-lived product (small_branch_refuted).  Tie: every one of the 513 rows "
-          "x a stratified grid from the property's ranges; each returned activity is compared inside Coq, by sign "
-          "decisions on rigorous enclosures (evaluator proved sound), (i) with the model expression within 2^-30 of the "
-          "magnitude of the terms the code adds and (ii) with the chain solution within 2^-30 of the solution itself, "
-          "so digits lost by the code to cancellation are reported, as 'to within double-precision rounding of that "
-          "solution' demands.  A case counts as a finding only when the enclosure proves it lies outside the allowance."),
+          "extensionality via Coquelicot, the primitive-integer axioms of Bignums for the evaluator facts): the closed "
+          "forms of the three reaction chains - single capture with burn-up of target and product, two-step capture "
+          "(Bateman), feeding by decay of an activated parent - are PROVED (Coquelicot is_derive) to satisfy their ODE "
+          "systems with the right initial conditions; on these solutions activity is non-negative (integrating-factor "
+          "argument, all three chains), proportional to mass, falls by exactly 2^(-t/T) over a rest time, and for single "
+          "capture never falls with exposure by more than the depletion exp(-k1 dt) of the target.  The Gallina "
+          "transcription of activity() (Model/Act.v; the reader of the raw activation.dat lines and the form of the "
+          "burn-up branch are regenerated from /repo on every run) is proved, for the source as it stands, to denote "
+          "exactly the chain solution on EVERY branch (C14_model_refines_spec), never to raise nor decline on any of "
+          "the 513 rows (C14_never_raises), to be non-negative for physical inputs, to omit fast rows when the fast "
+          "ratio is 0, to be independent of the resonance integrals when the Cd ratio is below 1, and to expand a "
+          "natural element into its abundance-weighted isotopes; the columns read as thermalXS, resonance, half-life "
+          "... are those the data file's own header labels so.  (The two statements refuted before the repair of the "
+          "small-argument branch, commits 05a94d2/4ec1eac, are now proved; reverting the source flips the regenerated "
+          "configuration and these obligations fail.)  Tie: every one of the 513 rows x a stratified grid from the "
+          "property's ranges; each returned activity is compared inside Coq, by sign decisions on rigorous enclosures "
+          "(evaluator proved sound), (i) with the model expression within 2^-30 of the magnitude of the terms the code "
+          "adds and (ii) with the chain solution within 2^-30 of the solution itself, so digits lost by the code to "
+          "cancellation are reported, as 'to within double-precision rounding of that solution' demands (known "
+          "findings: the '2n' and 'b' branches).  A case counts as a finding only when the enclosure proves it lies "
+          "outside the allowance."),
     note="Modelled not verified: libm exp/expm1, Python float()/int()/str.split. The constant 1.6278e19 (atoms per "
          "mole over 3.7e4 decays/s/uCi) and the factor 3600e-24 are taken from the source as the unit convention. "
          "Uniqueness of ODE solutions is not proved (the closed forms are shown to be solutions). Branch tests that "
-         "involve ln 2 are decided with certified 16-digit bounds; closer cases are counted as undecided. "
-         "The 'b' chain is specified without target burn-up (as documented).",
-    technique="Coq proof (Coquelicot derivatives, field/lra/interval) on Spec and Model + exhaustive-over-rows "
+         "involve ln 2 are decided with certified 16-digit bounds. The 'b' chain is specified without target burn-up "
+         "(as documented). The '2n'/'b' cancellation is a floating-point effect: the real-valued model is exact there, "
+         "so it is recorded by the tie (known findings), not by a theorem.",
+    technique="Coq proof (Coquelicot derivatives, field/lra) on Spec and Model + exhaustive-over-rows "
               "model/implementation/solution correspondence by proved-sound interval sign decisions under vm_compute",
     ref="DESIGN.md section 7 C14")
 
@@ -126,7 +130,17 @@ def run(ctx):
     ctx.assumptions = ["allowance 2^-30 relative to the chain solution (plus 2^-1074 for underflow)",
                        "model comparison allowance 2^-30 x magnitude of the terms the code adds",
                        "Python float inputs transmitted as exact rationals"]
-    if proved:
+    model_ok = proved
+    if not proved:
+        # a broken obligation is not yet a violation: the search for a failing input still runs the model
+        # beside the implementation when the model itself builds
+        kind, msg = ctx.broken
+        ctx.note("%s broke: %s" % (kind, msg))
+        if kind == "proof":
+            with vlib.Lock():
+                vlib.regen(ctx.pid)   # another check may have regenerated Gen from a different tree meanwhile
+                model_ok, _ = vlib.make(["Model/C14Check.vo"])
+    if model_ok:
         verdicts = run_model(cases)
         keys = vlib.run_diag("C14_keys", PRE, CT, [], "(fun _ : list c14case => model_row_keys)")
         ctx.cov["evaluations"] = len(cases)
@@ -141,9 +155,6 @@ def run(ctx):
         ctx.cov["verdicts"] = dict(cnt)
         ctx.cov["model_agreed"] = sum(n for k, n in cnt.items() if k == "ok" or k.startswith("finding") or k.startswith("spec-unknown"))
         ctx.cov["branches"] = dict(__import__("collections").Counter(m["branch"] for m in meta))
-    else:
-        kind, msg = ctx.broken
-        ctx.note("%s broke: %s" % (kind, msg))
     seen = set()
     for d in direct:
         if d["signature"] in seen:
@@ -151,7 +162,7 @@ def run(ctx):
         seen.add(d["signature"])
         ctx.report(d["signature"], d["what"], dict(input=d["input"], how="tools/harness/c14.py direct statement; replay with ./check C14 --replay <this file>"))
     ctx.cov["signatures_reported"] = sorted(set(v[0] for v in ctx.violations) | set(s for s, _ in ctx.known_printed))
-    if not proved and not direct:
+    if not proved and not ctx.violations:
         kind, msg = ctx.broken
         ctx.report("C14:" + kind, "%s no longer checks: %s" % (kind, msg), dict(obligation=kind, detail=msg), found_input=False)
 
